@@ -37,40 +37,42 @@ type ListAct struct {
 
 // WatchAct scripts the n-th Watch call.
 type WatchAct struct {
-	ConnErr    bool           // Watch() returns an error
-	Hang       bool           // Watch() blocks until its context is cancelled
-	CloseAfter int            // close the stream after this many frames (0 = never, -1 = immediately)
-	Inject     map[int]string // before data frame #i (0-based) send a special frame: "status","bookmark","error","unknown","nilobj","nonobj"
-	DropAt     map[int]bool   // do not send data frame #i
-	DupAt      map[int]bool   // send data frame #i twice
-	FromOlder  int            // replay from (requested rv - FromOlder)
-	Mute       bool           // connect but never deliver anything
+	ConnErr     bool           // Watch() returns an error
+	ConnErrKind int            // 0: plain error, 1: context.DeadlineExceeded, 2: context.Canceled (a client-side timeout, not our shutdown)
+	Hang        bool           // Watch() blocks until its context is cancelled
+	CloseAfter  int            // close the stream after this many frames (0 = never, -1 = immediately)
+	Inject      map[int]string // before data frame #i (0-based) send a special frame: "status","bookmark","error","unknown","nilobj","nonobj"
+	DropAt      map[int]bool   // do not send data frame #i
+	DupAt       map[int]bool   // send data frame #i twice
+	FromOlder   int            // replay from (requested rv - FromOlder)
+	Mute        bool           // connect but never deliver anything
 }
 
 type FakeServer struct {
-	mu               sync.Mutex
-	tr               *Tracer
-	rv               int
-	objs             map[string]MObj
-	hist             []histEv
-	watches          map[*fakeWatch]bool
-	lists            []ListAct
-	watchs           []WatchAct
-	defWatch         WatchAct
-	nList            int
-	nWatch           int
-	extra            []runtime.Object // foreign objects mixed into lists (typed scenarios)
-	listTimes        []time.Time
-	inFlight         int
-	nListRet         int
-	havePrev         bool
-	prevRV           int
-	prevSnap         []MObj
-	lastMut          time.Time
-	lastHealthyFloor time.Time
-	healthyAt        time.Time // when the last Watch call with a fully healthy script connected
-	Converged        bool
-	maxInFlight      int
+	mu                 sync.Mutex
+	tr                 *Tracer
+	rv                 int
+	objs               map[string]MObj
+	hist               []histEv
+	watches            map[*fakeWatch]bool
+	lists              []ListAct
+	watchs             []WatchAct
+	defWatch           WatchAct
+	nList              int
+	nWatch             int
+	extra              []runtime.Object // foreign objects mixed into lists (typed scenarios)
+	listTimes          []time.Time
+	inFlight           int
+	nListRet           int
+	havePrev           bool
+	prevRV             int
+	prevSnap           []MObj
+	lastMut            time.Time
+	lastHealthyFloor   time.Time
+	healthyAt          time.Time // when the last Watch call with a fully healthy script connected
+	Converged          bool
+	DeleteKeepsVersion bool
+	maxInFlight        int
 }
 
 func NewFakeServer(tr *Tracer) *FakeServer {
@@ -84,10 +86,13 @@ func (s *FakeServer) name() string { return "srv" }
 func (s *FakeServer) apply(t watch.EventType, k string, l int) MObj {
 	s.mu.Lock()
 	s.rv++
-	o := MObj{K: k, V: s.rv, L: l}
+	o := MObj{K: k, V: realToModel(int64(s.rv)), L: l}
 	if t == watch.Deleted {
 		if old, ok := s.objs[k]; ok {
 			o.L = old.L
+			if s.DeleteKeepsVersion {
+				o.V = old.V // the DELETED frame carries the object as it last was
+			}
 		}
 		delete(s.objs, k)
 	} else {
@@ -95,7 +100,7 @@ func (s *FakeServer) apply(t watch.EventType, k string, l int) MObj {
 	}
 	s.hist = append(s.hist, histEv{s.rv, t, o})
 	s.lastMut = time.Now()
-	s.tr.LogRaw("srv", "srv.mut", fmt.Sprintf(`"wt":%q,"o":{"k":%q,"v":%d,"l":%d},"rv":%d`, string(t), o.K, o.V, o.L, s.rv))
+	s.tr.LogRaw("srv", "srv.mut", fmt.Sprintf(`"wt":%q,"o":{"k":%q,"v":%d,"l":%d},"rv":%d`, string(t), o.K, o.V, o.L, realToModel(int64(s.rv))))
 	ws := make([]*fakeWatch, 0, len(s.watches))
 	for w := range s.watches {
 		ws = append(ws, w)
@@ -156,7 +161,7 @@ func (s *FakeServer) LogSnapshot() {
 	s.mu.Lock()
 	rv, l := s.snapshot()
 	s.mu.Unlock()
-	s.tr.LogRaw("srv", "srv.snapshot", fmt.Sprintf(`"rv":%d,"list":%s,"converged":%v`, rv, listJSONObjs(l), s.Converged))
+	s.tr.LogRaw("srv", "srv.snapshot", fmt.Sprintf(`"rv":%d,"list":%s,"converged":%v`, realToModel(int64(rv)), listJSONObjs(l), s.Converged))
 }
 
 func listJSONObjs(l []MObj) string {
@@ -227,7 +232,7 @@ func (s *FakeServer) List(ctx context.Context, opts metav1.ListOptions) (runtime
 	}
 	extra := s.extra
 	// logged while the snapshot is taken: the list content is fixed here
-	s.tr.LogRaw("srv", "srv.listret", fmt.Sprintf(`"n":%d,"fail":%q,"rv":%d,"list":%s`, idx, act.Fail, rv, listJSONObjs(snap)))
+	s.tr.LogRaw("srv", "srv.listret", fmt.Sprintf(`"n":%d,"fail":%q,"rv":%d,"list":%s`, idx, act.Fail, realToModel(int64(rv)), listJSONObjs(snap)))
 	s.nListRet++
 	s.mu.Unlock()
 
@@ -240,11 +245,14 @@ func (s *FakeServer) List(ctx context.Context, opts metav1.ListOptions) (runtime
 		return &corev1.Pod{}, nil
 	case "nonobject":
 		return &metav1.List{ListMeta: metav1.ListMeta{ResourceVersion: strconv.Itoa(rv)}, Items: []runtime.RawExtension{{Object: &metav1.Status{}}, {Raw: []byte("{}")}}}, nil
+	case "nonobject-mid":
+		// a non-object item that is not the last one
+		return &metav1.List{ListMeta: metav1.ListMeta{ResourceVersion: strconv.Itoa(rv)}, Items: []runtime.RawExtension{{Object: &metav1.Status{}}, {Object: mkPod("a", realToModel(int64(rv)), 0)}}}, nil
 	case "ctxerr":
 		return nil, context.Canceled
 	case "nometa":
 		// something with Items but without list metadata: not a list of API objects
-		return &noMetaList{Items: []corev1.Pod{*mkPod("a", rv, 0)}}, nil
+		return &noMetaList{Items: []corev1.Pod{*mkPod("a", realToModel(int64(rv)), 0)}}, nil
 	}
 	pl := &corev1.PodList{ListMeta: metav1.ListMeta{ResourceVersion: strconv.Itoa(rv)}}
 	for _, o := range snap {
@@ -294,10 +302,11 @@ func (s *FakeServer) Watch(ctx context.Context, opts metav1.ListOptions) (watch.
 	if idx < len(s.watchs) {
 		act = s.watchs[idx]
 	}
-	from, err := strconv.Atoi(opts.ResourceVersion)
+	from64, err := strconv.ParseInt(opts.ResourceVersion, 10, 64)
 	if err != nil {
-		from = 0
+		from64 = 0
 	}
+	from := int(from64)
 	kind := "ok"
 	switch {
 	case act.ConnErr:
@@ -305,9 +314,15 @@ func (s *FakeServer) Watch(ctx context.Context, opts metav1.ListOptions) (watch.
 	case act.Hang:
 		kind = "hang"
 	}
-	s.tr.LogRaw("srv", "srv.watch", fmt.Sprintf(`"n":%d,"rv":%d,"raw":%q,"kind":%q`, idx, from, opts.ResourceVersion, kind))
+	s.tr.LogRaw("srv", "srv.watch", fmt.Sprintf(`"n":%d,"rv":%d,"raw":%q,"kind":%q`, idx, realToModel(from64), strconv.Itoa(verModel(opts.ResourceVersion)), kind))
 	if act.ConnErr {
 		s.mu.Unlock()
+		switch act.ConnErrKind {
+		case 1:
+			return nil, context.DeadlineExceeded
+		case 2:
+			return nil, context.Canceled
+		}
 		return nil, errors.New("fake watch connect error")
 	}
 	if act.Hang {
@@ -460,6 +475,23 @@ func hasFatalInject(m map[int]string) bool {
 		}
 	}
 	return false
+}
+
+// FaultsAhead: how many of the scripted Watch calls still to come end their stream at once or fail to connect,
+// counted up to the first one that does not.
+func (s *FakeServer) FaultsAhead() int {
+	s.mu.Lock()
+	defer s.mu.Unlock()
+	n := 0
+	for i := s.nWatch; i < len(s.watchs); i++ {
+		a := s.watchs[i]
+		if a.ConnErr || a.CloseAfter != 0 || hasFatalInject(a.Inject) {
+			n++
+			continue
+		}
+		break
+	}
+	return n
 }
 
 // HealthyWatchConnected: some connected stream has sent the whole history (so the cache must be current).
